@@ -120,7 +120,6 @@ func c12Body(t *rapid.T, w *world1) []byte {
 type c12Env struct {
 	w     *world1
 	s     *sess
-	hc    *http.Client
 	idle  []net.Conn
 	hist  []string
 	reach bool
@@ -217,19 +216,26 @@ func (e *c12Env) httpInput(t *rapid.T) {
 	if err != nil {
 		return // not expressible as an HTTP request
 	}
-	resp, err := e.hc.Do(req)
+	status, _, err := world.HTTPOnce(req, 120*time.Second)
 	if err == nil {
-		io.Copy(io.Discard, resp.Body)
-		resp.Body.Close()
 		if strings.HasPrefix(route, "/api/v1/") && len(route) > 9 {
-			e.reach = e.reach || resp.StatusCode != http.StatusMethodNotAllowed
+			e.reach = e.reach || status != http.StatusMethodNotAllowed
 		}
 	}
 	if ps := server.VerifPanics(); len(ps) > 0 {
 		e.fail("request handler panicked on %s: %s\n%s", desc, ps[0].Value, trimStack(ps[0].Stack))
 	}
 	if err != nil && !strings.Contains(err.Error(), "Timeout") && !strings.Contains(err.Error(), "deadline") {
-		e.fail("%s ended without a response: %v", desc, err)
+		// A transport error is judged only for a request without a body. With a
+		// body, net/http itself may answer and close before the body was read
+		// (e.g. 400 for a request line with a space in it, which the generator
+		// produces): the kernel then resets the connection and the reset can
+		// overtake the response. That is not the server under test; its handlers
+		// are covered by the panic witness above and the liveness probe below.
+		if len(body) == 0 {
+			e.fail("%s ended without a response: %v", desc, err)
+		}
+		ev.Label("c12:http-transport-error-with-body-unjudged")
 	}
 }
 
@@ -306,12 +312,11 @@ func TestC12Inputs(t *testing.T) {
 		w := buildWorld(t, "C12", k, rapid.IntRange(1, 2).Draw(t, "nDev"), true)
 		s := w.s
 		defer s.cleanup()
-		e := &c12Env{w: w, s: s, hc: &http.Client{Timeout: 120 * time.Second, Transport: &http.Transport{DisableKeepAlives: true}}}
+		e := &c12Env{w: w, s: s}
 		defer func() {
 			for _, c := range e.idle {
 				c.Close()
 			}
-			e.hc.CloseIdleConnections()
 		}()
 		if rapid.Bool().Draw(t, "peersDown") {
 			for i := 0; i < rapid.IntRange(1, 2).Draw(t, "nPeers"); i++ {
